@@ -170,7 +170,7 @@ func adversaryTargets(s *simState) []advTarget {
 }
 
 func runAdversary(sc *simScenario, hist []simEvent) []simViolation {
-	s0, err := replayHist(sc, hist)
+	s0, err := replayExpected(sc, hist)
 	if err != nil {
 		s0.close()
 		return nil
@@ -180,7 +180,7 @@ func runAdversary(sc *simScenario, hist []simEvent) []simViolation {
 	s0.close()
 	var out []simViolation
 	for _, tg := range targets {
-		s, err := replayHist(sc, hist)
+		s, err := replayExpected(sc, hist)
 		if err != nil {
 			s.close()
 			continue
